@@ -13,11 +13,11 @@ EXTRACT = ("theories/Extract/XC05.v", "c05",
 PYX = {"_cpmorphology2.pyx": ["skeletonize_loop", "index_lookup", "prepare_for_index_lookup",
                               "extract_from_image_lookup"]}
 CASE_TIMEOUT = 60
-RULE = ("exhaustive: every binary image of every shape up to 3x3 plus 3x4, 4x3 (thorough: also 4x4, 3x5, 5x3, 2x6, 6x2) "
+RULE = ("exhaustive: every binary image of every shape up to 3x3 plus 3x4, 4x3, 2x4, 4x2, 1x5, 5x1 (thorough: also 4x4, 3x5, 5x3, 2x5, 5x2) "
         "through thin(None), binary_shrink(-1) and skeletonize_loop (current table, a pseudo-random order per image); "
-        "random: shapes skewed to 1xN/Nx1/2x2/3x3 up to 26x26 (thorough 44x44), contents all-0, all-1, noise at "
+        "random: shapes skewed to 1xN/Nx1/2x2/3x3 up to 26x26 (thorough 40x40), contents all-0, all-1, noise at "
         "densities 0.1-0.95, thresholded smooth blobs, rings / nested rings, one-pixel lines, 2x2 blocks, "
-        "border-touching frames, checkerboards; thin with iterations None/0..6, binary_shrink with -1/0..6, "
+        "border-touching frames, checkerboards, long winding one-pixel lines (serpentines, spirals); thin with iterations None/0..6, binary_shrink with -1/0..6, "
         "index_lookup with each of the seven tables, skeletonize_loop with random / raster / reverse orders, "
         "skeletonize with a random distinct-integer ordering (exact), skeletonize default ordering (exact, given the "
         "order the code built, plus topo_check), skeletonize_labels (topo_check per label). Non-trivial = at least "
@@ -192,19 +192,26 @@ def _corpus():
         img = [[] for _ in range(h)]
         cs.append(_mk("thin", img, h, w, it=None))
         cs.append(_mk("shrink", img, h, w, it=-1))
+    cdir = os.path.join(os.path.dirname(os.path.dirname(_HERE)), "corpus", "C05")
+    if os.path.isdir(cdir):
+        import json
+        for name in sorted(os.listdir(cdir)):
+            if name.endswith(".json"):
+                with open(os.path.join(cdir, name)) as f:
+                    cs.extend(e["case"] for e in json.load(f)["cases"])
     return cs
 
 
 def _exhaustive_shapes(ctx):
     shapes = [(h, w) for h in range(1, 4) for w in range(1, 4)] + [(3, 4), (4, 3), (2, 4), (4, 2), (1, 5), (5, 1)]
     if not ctx.quick():
-        shapes += [(4, 4), (3, 5), (5, 3), (2, 6), (6, 2), (2, 5), (5, 2)]
+        shapes += [(4, 4), (3, 5), (5, 3), (2, 5), (5, 2)]
     return shapes
 
 
 def generate(ctx):
     rng = ctx.rng
-    big = ctx.n(26, 44)
+    big = ctx.n(26, 40)
     cases = list(_corpus())
     for h, w in _exhaustive_shapes(ctx):
         for code in range(1 << (h * w)):
@@ -214,31 +221,31 @@ def generate(ctx):
             cases.append(_mk("loop", img, h, w, order=_rand_order(rng, img)))
         ctx.count("exhaustive:%dx%d" % (h, w), 1 << (h * w))
     cnt = lambda k: ctx.count(k)
-    for _ in range(ctx.n(500, 6000)):
+    for _ in range(ctx.n(500, 3000)):
         img, h, w = _rand_image(rng, big, cnt)
         it = None if rng.rand() < 0.6 else int(rng.randint(0, 7))
         cases.append(_mk("thin", img, h, w, it=it))
-    for _ in range(ctx.n(500, 6000)):
+    for _ in range(ctx.n(500, 3000)):
         img, h, w = _rand_image(rng, big, cnt)
         it = -1 if rng.rand() < 0.6 else int(rng.randint(0, 7))
         cases.append(_mk("shrink", img, h, w, it=it))
-    for _ in range(ctx.n(350, 4000)):
+    for _ in range(ctx.n(350, 2000)):
         img, h, w = _rand_image(rng, big, cnt)
         it = None if rng.rand() < 0.4 else int(rng.randint(0, 4))
         cases.append(_mk("lookup", img, h, w, t=int(rng.randint(0, 7)), it=it))
-    for _ in range(ctx.n(500, 6000)):
+    for _ in range(ctx.n(500, 3000)):
         img, h, w = _rand_image(rng, big, cnt)
         cases.append(_mk("loop", img, h, w, order=_rand_order(rng, img)))
-    for _ in range(ctx.n(250, 2000)):
+    for _ in range(ctx.n(250, 1500)):
         img, h, w = _rand_image(rng, big, cnt)
         if h * w == 0:
             continue
         o = rng.permutation(h * w) * int(rng.choice([1, 1, 3])) - int(rng.choice([0, 0, 50]))
         cases.append(_mk("skel_ord", img, h, w, ord=o.reshape(h, w).tolist()))
-    for _ in range(ctx.n(250, 2000)):
+    for _ in range(ctx.n(250, 1500)):
         img, h, w = _rand_image(rng, big, cnt)
         cases.append(_mk("skel", img, h, w))
-    for _ in range(ctx.n(100, 600)):
+    for _ in range(ctx.n(100, 500)):
         cases.append(_rand_labels(rng, min(big, 24), cnt))
     for c in cases:
         ctx.count("fn:" + c["fn"])
@@ -373,6 +380,17 @@ def _flag(it):
     return [0, 0] if it is None else [1, int(it)]
 
 
+def _prun(ctx, entry, args, chunk=20000, workers=4):
+    """ctx.run_model in chunks on a few threads (each chunk is one run of the extracted program)"""
+    if len(args) <= chunk:
+        return ctx.run_model(entry, args)
+    from concurrent.futures import ThreadPoolExecutor
+    parts = [args[s:s + chunk] for s in range(0, len(args), chunk)]
+    with ThreadPoolExecutor(workers) as ex:
+        outs = list(ex.map(lambda a: ctx.run_model(entry, a), parts))
+    return [r for o in outs for r in o]
+
+
 def model(ctx, cases, outs):
     res = [None] * len(cases)
     groups = {}
@@ -395,7 +413,7 @@ def model(ctx, cases, outs):
             if not _bad(o) and o.get("order") is not None:
                 groups.setdefault("entry_loop", []).append((k, base + [o["order"]]))
     for entry, items in groups.items():
-        for (k, _), r in zip(items, ctx.run_model(entry, [a for _, a in items])):
+        for (k, _), r in zip(items, _prun(ctx, entry, [a for _, a in items])):
             res[k] = r
     # the processing order the model derives from the ordering matrix
     so = [(k, [c["h"], c["w"], c["img"], c["ord"]]) for k, c in enumerate(cases) if c["fn"] == "skel_ord"]
@@ -518,9 +536,13 @@ def check(ctx, cases, outs):
             extra[k] = "%s run to convergence is not idempotent" % c["fn"]
         elif c["fn"] == "shrink" and c["it"] == -1:
             extra[k] = _hole_free_not_point(_arr(c), np.array(o["out"], bool).reshape(h, w))
-    verdicts = ctx.run_model("entry_topo_check", [[h, w, a, b] for (_, h, w, a, b, _) in jobs]) if jobs else []
-    for (k, h, w, a, b, what), v in zip(jobs, verdicts):
+    verdicts = _prun(ctx, "entry_topo_check", [[h, w, a, b] for (_, h, w, a, b, _) in jobs]) if jobs else []
+    for n, ((k, h, w, a, b, what), v) in enumerate(zip(jobs, verdicts)):
         if res[k] is not None:
+            continue
+        # second opinion (literal component counting): always when the verified checker rejects and on every
+        # larger image; on the exhaustive tiny images (h*w <= 16) on one case in eight
+        if v == 1 and h * w <= 16 and n % 8:
             continue
         cc = topo_cc(np.array(a, bool).reshape(h, w), np.array(b, bool).reshape(h, w))
         if v != 1:
